@@ -452,7 +452,9 @@ def mjx_primitive(kind, part='dist'):
     d0 = mjx.make_data(sys)
     # only the outputs a clause mentions are traced (dead-code elimination keeps the square roots of the frame construction out of the distance clauses)
     fields = {'dist': {'plane-sphere': ('dist', 'pos'), 'sphere-sphere': ('dist',), 'plane-capsule': ('dist',)}[kind], 'normal': ('frame',)}[part]
-    out = sym_call(Interp(A), lambda p, m_: (lambda c: dict({f_: getattr(c, f_) for f_ in fields}, g1=c.geom1, g2=c.geom2))(mjx.collision(sys, d0.replace(geom_xpos=p, geom_xmat=m_)).contact), Sym(gp), Sym(gm))
+    # (for the normal clauses only row 0 of the contact frame is traced: the tangent rows come from another normalisation that no clause mentions)
+    pick = lambda c, f_: getattr(c, f_)[:, 0:1] if f_ == 'frame' else getattr(c, f_)
+    out = sym_call(Interp(A), lambda p, m_: (lambda c: dict({f_: pick(c, f_) for f_ in fields}, g1=c.geom1, g2=c.geom2))(mjx.collision(sys, d0.replace(geom_xpos=p, geom_xmat=m_)).contact), Sym(gp), Sym(gm))
     g1, g2 = [int(v) for v in np.asarray(out['g1'])], [int(v) for v in np.asarray(out['g2'])]
     size = np.asarray(sys.geom_size, dtype=float)
     R = lambda v: z3.RealVal(str(Fraction(float(v))))
@@ -510,7 +512,7 @@ def mjx_primitive(kind, part='dist'):
                     {'plane-sphere': 'for ALL world geom positions and plane orientations (unit normal): dist = n.(c - p) - r, contact normal = plane normal (from the plane to the sphere), contact point on that normal half-way between the surfaces',
                      'sphere-sphere': 'for ALL centre positions: dist = |c2 - c1| - r1 - r2 (centres closer than 1e-8 in every coordinate: dist = -r1 - r2, i.e. the closed form to within 1.8e-8)',
                      'plane-capsule': 'for ALL positions and orientations: the two candidate contacts are the two end spheres: dist = n.(c +- h a - p) - r (a = capsule axis), normal = plane normal'}[kind],
-                    body, timeout=60, budget=600, split_first=True)
+                    body, timeout=150, budget=900, split_first=True)
 
 
 def obligations(tier):
